@@ -161,18 +161,54 @@ def _roundtrip(case, out, home):
     # a later save under the profile name (what the library does when the server key changes) must be what the profile loads next
     if how in ("profile", "profile_file") and case.get("fields2") is not None:
         cfg2 = build_config(case["fields2"])
+        # who makes the second save: the same manager object, or another one (every YowProfile has its own; another process)
+        cm2 = ConfigManager() if case.get("other_writer") else cm
+        if case.get("fail_first"):
+            # the first attempt fails with an I/O error while the file is being written; it is then simply tried again
+            real_fsync = os.fsync
+            state = {"n": 0}
+
+            def failing_fsync(fd):
+                state["n"] += 1
+                if state["n"] == 1:
+                    raise OSError(28, "No space left on device")
+                return real_fsync(fd)
+            os.fsync = failing_fsync
+            try:
+                cm2.save(profile, cfg2)
+                out.label("first_attempt_did_not_sync")
+            except OSError:
+                out.label("save_failed_then_retried")
+            except Exception as e:
+                out.fail("save", "second_save_raises:%s:%s" % (key, type(e).__name__), {"error": _exc(e)})
+                return
+            finally:
+                os.fsync = real_fsync
         try:
-            cm.save(profile, cfg2)
+            cm2.save(profile, cfg2)
             back2 = ConfigManager().load(profile)
         except Exception as e:
             out.fail("save", "second_save_raises:%s:%s" % (key, type(e).__name__), {"error": _exc(e)})
             return
-        out.label("second_save_by_profile_name")
+        out.label("second_save_by_profile_name" + ("_by_another_manager" if cm2 is not cm else ""))
         d = config_diff(cfg2, back2)
         if d:
             stale = config_diff(cfg, back2) is None
             out.fail("roundtrip", "second_save_not_loaded:%s%s" % (key, ":stale_first_file_loaded" if stale else ""), {"diff": d})
             return
+        if case.get("again") and how == "profile":
+            # ... and the first writer saving its configuration once more makes that the profile's configuration again
+            try:
+                cm.save(profile, cfg, stype)
+                back3 = ConfigManager().load(profile)
+            except Exception as e:
+                out.fail("save", "third_save_raises:%s:%s" % (key, type(e).__name__), {"error": _exc(e)})
+                return
+            out.label("first_configuration_saved_again")
+            d = config_diff(cfg, back3)
+            if d:
+                out.fail("roundtrip", "save_of_an_earlier_configuration_not_loaded:%s" % key, {"diff": d, "other_writer": bool(case.get("other_writer"))})
+                return
     # serialising the loaded configuration again gives the same text (stability of the representation)
     try:
         s1 = cm.config_to_str(cfg, stype)
@@ -393,13 +429,22 @@ _profile = st.one_of(st.text(alphabet="abcdefghijklmnopqrstuvwxyz0123456789", mi
 
 
 def rt_strategy():
+    def extras(c, bits):
+        if c.get("fields2") is not None:
+            if bits & 1:
+                c["other_writer"] = True
+            if bits & 2:
+                c["again"] = True
+            if bits & 4:
+                c["fail_first"] = True
+        return c
     json_case = st.builds(lambda f, how, p, f2: {"sub": "rt", "fmt": "json", "how": how, "fields": f, "profile": p, "fields2": f2},
                           fields_strategy("json"), st.sampled_from(["profile", "profile", "dest_ext", "dest_noext", "profile_file"]),
                           _profile, st.one_of(st.none(), fields_strategy("json")))
     kv_case = st.builds(lambda f, how, p, f2: {"sub": "rt", "fmt": "keyval", "how": how, "fields": f, "profile": p, "fields2": f2},
                         fields_strategy("keyval"), st.sampled_from(["profile", "dest_ext", "dest_noext", "profile_file"]), _profile,
                         st.one_of(st.none(), fields_strategy("json")))
-    return st.one_of(json_case, kv_case)
+    return st.tuples(st.one_of(json_case, kv_case), st.integers(0, 7)).map(lambda t: extras(t[0], t[1]))
 
 
 def crash_strategy():
@@ -422,6 +467,9 @@ def _enum_basic():
                           ("keyval", ["profile", "dest_ext", "dest_noext", "profile_file"])):
             for how in hows:
                 yield {"sub": "rt", "fmt": fmt, "how": how, "fields": fields, "profile": "acct1"}
+    for bits in range(8):
+        yield dict({"sub": "rt", "fmt": "json", "how": "profile", "fields": base, "profile": "acct1", "fields2": full},
+                   **dict(([("other_writer", True)] if bits & 1 else []) + ([("again", True)] if bits & 2 else []) + ([("fail_first", True)] if bits & 4 else [])))
     yield {"sub": "crash", "old": base, "new": full, "profile": "acct1"}
     yield {"sub": "crash", "old": full, "new": dict(full, pushname="a much longer push name " * 4), "after": base, "profile": "acct1"}
     yield {"sub": "profile_api", "old": base, "edits": {"server_static_public": "55" * 32}, "profile": "4915112345678"}
